@@ -1205,7 +1205,7 @@ class Case(Term):
 
     @builder
     def when(self, criterion: Any, term: Any) -> "Self":  # type:ignore[return]
-        self._cases.append((criterion, self.wrap_constant(term)))
+        self._cases = [*self._cases, (criterion, self.wrap_constant(term))]
 
     @builder
     def replace_table(  # type:ignore[return]
